@@ -269,22 +269,28 @@ def mutate_paths(rng: random.Random, p: str, n: int):
     return res
 
 
-def run_case(case) -> list[dict]:
-    """Execute one case on the real code; returns trace lines (without t / i)."""
+def run_case(case, _st=None) -> list[dict]:
+    """Execute one case on the real code; returns trace lines (without t / i).  _st (run_history): reuse the Map, the
+    adapter and the values object of an earlier round and collect the dicts match() handed out."""
     from werkzeug.wrappers import Request
 
     norm_case(case)
+    st = _st if _st is not None else {}
     m, b = case["map"], case["bind"]
-    base = {"map": m, "bind": b, "au": case["au"]}
-    mp = mk_map(m)
+    base = {"map": m, "bind": b, "au": case["au"], "hist": st.get("hist", 0)}
+    mp = st.get("mp") or mk_map(m)
+    st["mp"] = mp
+    st.setdefault("returned", [])
     ep = f"e{case['ep']}"
-    values = {txt(x["name"]): to_py(x) for x in case["vals"]}
+    values = st["values"] if "values" in st else {txt(x["name"]): to_py(x) for x in case["vals"]}
+    st["values"] = values
     ext = bool(case["ext"])
     line = dict(base, op="rt", ep=case["ep"], vals=case["vals"], ext=ext, url=[], exc="", under=False, dhost=[], dpath=[], dquery=[],
                 m=_pub(NOMATCH), e=_pub(NOMATCH), qargs=[], rebuilt=[], rb_exc="")
     lines = [line]
     try:
-        ad = bind(mp, m, b)   # a server name that is no valid IDNA host raises BadHost: recorded like a failed build
+        ad = st.get("ad") or bind(mp, m, b)   # a server name that is no valid IDNA host raises BadHost: recorded like a failed build
+        st["ad"] = ad
         url = ad.build(ep, values, force_external=ext, append_unknown=case["au"])
     except Exception as e:  # noqa: BLE001
         line["exc"] = type(e).__name__
@@ -299,7 +305,10 @@ def run_case(case) -> list[dict]:
     dpath = _dec(raw)
     line["dpath"] = cps(dpath)
     if not scheme:
-        line["m"] = _pub(observe_match(lambda: ad.match(dpath)))
+        mobs = observe_match(lambda: ad.match(dpath))
+        line["m"] = _pub(mobs)
+        if mobs["kind"] == "match":
+            st["returned"].append(mobs["_py"][1])
     env = environ_for(host, raw, query, scheme or txt(b["scheme"]), root)
 
     def via_environ():
@@ -310,6 +319,8 @@ def run_case(case) -> list[dict]:
 
     eobs = observe_match(via_environ)
     line["e"] = _pub(eobs)
+    if eobs["kind"] == "match":
+        st["returned"].append(eobs["_py"][1])
     try:
         line["qargs"] = [[cps(k), cps(v)] for k, v in Request(env).args.items(multi=True)]
     except Exception as e:  # noqa: BLE001
@@ -968,4 +979,148 @@ def edge_cases() -> list[dict]:
                 m = {"rules": [rule], "host_matching": False, "redirect_defaults": True, "sort": 0}
                 b = {"server": cps("example.com"), "script": cps("/app" if pos in ("affixes", "submount") else "/"), "sub": [], "scheme": cps("http")}
                 out.append(norm_case({"map": m, "bind": b, "ep": 1, "vals": [dict(v, name=cps("x"))], "ext": False, "npaths": -1, "pseed": 0, "au": True}))
+    return out
+
+
+# ------------------------------------------------------------------ result aliasing histories
+def _mutate(d, mode):
+    """what an application does to the dict match() returned (the url_value_preprocessor idiom)"""
+    try:
+        if mode == "clear":
+            d.clear()
+        elif mode == "pop":
+            for k in list(d)[:1]:
+                d.pop(k)
+        else:
+            for k in list(d):
+                d[k] = "mutated!"
+            d["extra_key"] = 1
+    except Exception:  # noqa: BLE001  -- an immutable result is fine
+        pass
+
+
+def run_history(case) -> list[dict]:
+    """Three round trips on ONE Map and ONE adapter.  Round 2 passes the very dict object of round 1 into build()
+    again after the application mutated every dict match() had returned; before round 3 the application also
+    clears the dict it had passed into build() and passes fresh values (a MultiDict when case['multidict'])."""
+    from werkzeug.datastructures import MultiDict
+
+    mode = case["hist_mode"]
+    st = {}
+    lines = run_case(case, st)
+    for d in st["returned"]:
+        _mutate(d, mode)
+    st["returned"] = []
+    st["hist"] = 1
+    lines += run_case(dict(case, npaths=0), st)
+    for d in st["returned"]:
+        _mutate(d, mode)
+    st["returned"] = []
+    if isinstance(st.get("values"), dict):
+        _mutate(st["values"], "clear" if mode == "clear" else "set")
+    fresh = {txt(x["name"]): to_py(x) for x in case["vals"]}
+    st["values"] = MultiDict(fresh) if case.get("multidict") else fresh
+    st["hist"] = 2
+    lines += run_case(dict(case, npaths=-1), st)
+    return lines
+
+
+def alias_cases() -> list[dict]:
+    """deterministic: rules with defaults and no converters ('/' with {'lang': 'en'}), with converters, a defaults pair,
+    a placeholder default, below Submount; every script root; pop / set / clear; dict and MultiDict"""
+    en, one = dict(V("str", "en"), name=cps("lang")), dict(V("int", "1"), name=cps("page"))
+    shapes = [
+        ([_rule(1, [], branch=True, defaults=[en])], []),
+        ([_rule(1, [_lit("s")], defaults=[en, one])], []),
+        ([_rule(1, [_lit("s"), _var("x", _conv("int"))], defaults=[en])], [dict(V("int", "42"), name=cps("x"))]),
+        ([_rule(1, [_lit("s")], branch=True, defaults=[dict(V("int", "1"), name=cps("x"))]), _rule(1, [_lit("t"), _var("x", _conv("int"))])], []),
+        ([_rule(1, [_lit("m"), _lit("s"), _var("x", _conv("string"))], defaults=[en], via="submount")], [dict(V("str", "a b"), name=cps("x"))]),
+        ([_rule(1, [_lit("z"), _var("x", _conv("float"))], defaults=[dict(V("int", "1"), name=cps("x"))])], []),
+        ([_rule(1, [_lit("q"), _var("x", _conv("path"))], branch=True, defaults=[en, one], dom="api", via="subdomain")], [dict(V("str", "a/b"), name=cps("x"))]),
+    ]
+    out = []
+    for rules, vals in shapes:
+        for script in ("/", "/app", "/app/"):
+            for mode in ("pop", "set", "clear"):
+                for md in (False, True):
+                    m = {"rules": [dict(r) for r in rules], "host_matching": False, "redirect_defaults": True, "sort": 0}
+                    b = {"server": cps("example.com"), "script": cps(script), "sub": [], "scheme": cps("http")}
+                    out.append(norm_case({"map": m, "bind": b, "ep": 1, "vals": [dict(v) for v in vals], "ext": False, "npaths": -1, "pseed": 0,
+                                          "au": True, "hist_mode": mode, "multidict": md}))
+    return out
+
+
+# ------------------------------------------------------------------ concurrent first use of one Map
+def run_concurrent(case) -> list[dict]:
+    """Deterministic two-thread schedule on the real Map.  Thread A makes the first use: Map.update() takes its lock and
+    sorts the rule lists; the sort key reads len(rule.defaults), where a dict subclass parks A on an Event.  While A is
+    parked inside the sort, thread B performs a complete round trip (build, deliver, match, rebuild) of valid values on
+    the same Map.  B either waits for A or gets a correct result; its lines are judged by the ordinary clauses."""
+    import threading
+
+    parked, release = threading.Event(), threading.Event()
+    state = {"armed": False, "fired": False}
+
+    class ParkingDict(dict):
+        def __len__(self):
+            if state["armed"] and not state["fired"]:
+                state["fired"] = True
+                parked.set()
+                release.wait(5)
+            return dict.__len__(self)
+
+    norm_case(case)
+    m = case["map"]
+    mp = mk_map(m)
+    for r in mp._rules:             # public attribute Rule.defaults: swap in the parking subclass (same content)
+        if r.defaults:
+            r.defaults = ParkingDict(r.defaults)
+    state["armed"] = True
+    a_err = []
+
+    def thread_a():
+        try:
+            bind(mp, m, case["bind"]).build(f"e{case['ep']}", {txt(x["name"]): to_py(x) for x in case["vals"]})
+        except Exception as e:  # noqa: BLE001
+            a_err.append(type(e).__name__)
+
+    out = {}
+
+    def thread_b():
+        out["lines"] = run_case(dict(case, npaths=0), {"mp": mp, "hist": -1})
+
+    ta = threading.Thread(target=thread_a, daemon=True)
+    ta.start()
+    was_parked = parked.wait(5)
+    tb = threading.Thread(target=thread_b, daemon=True)
+    tb.start()
+    tb.join(0.25)
+    b_waited = tb.is_alive()
+    release.set()
+    ta.join(10)
+    tb.join(20)
+    lines = out.get("lines") or [{"op": "harness_error", "err": "thread B did not finish", "case": case}]
+    for ln in lines:
+        ln["sched"] = {"a_parked": bool(was_parked), "b_waited": bool(b_waited), "a_err": "".join(a_err)}
+    if not was_parked:
+        lines.append({"op": "harness_error", "err": "thread A never reached the sort key hook", "case": case})
+    return lines
+
+
+def concurrent_cases() -> list[dict]:
+    en = dict(V("str", "en"), name=cps("lang"))
+    shapes = [
+        # the rule with defaults is declared last and must be sorted first: an unsorted list builds a URL that redirects
+        ([_rule(1, [_lit("t"), _var("x", _conv("int"))]), _rule(1, [_lit("s")], branch=True, defaults=[dict(V("int", "1"), name=cps("x"))])],
+         [dict(V("int", "1"), name=cps("x"))]),
+        ([_rule(2, [_lit("u")]), _rule(1, [_lit("s"), _var("x", _conv("string"))], defaults=[en])], [dict(V("str", "a b"), name=cps("x"))]),
+        ([_rule(1, [_lit("k"), _var("y", _conv("int")), _var("x", _conv("path"))]), _rule(1, [_lit("p"), _var("x", _conv("path"))], defaults=[dict(V("int", "7"), name=cps("y"))]),
+          _rule(1, [_lit("l")], defaults=[dict(V("int", "7"), name=cps("y")), dict(V("str", "a/b"), name=cps("x"))])], []),
+    ]
+    out = []
+    for rules, vals in shapes:
+        for script in ("/", "/app", "/app/"):
+            m = {"rules": [dict(r) for r in rules], "host_matching": False, "redirect_defaults": True, "sort": 0}
+            b = {"server": cps("example.com"), "script": cps(script), "sub": [], "scheme": cps("http")}
+            out.append(norm_case({"map": m, "bind": b, "ep": 1, "vals": [dict(v) for v in vals], "ext": False, "npaths": 0, "pseed": 0, "au": True, "concurrent": True}))
     return out
